@@ -22,10 +22,10 @@ Proof. exact auto_shutdown_guard. Qed.
    been ready (waiting, not held, not runahead-limited, all prerequisites
    true) yet unqueued for [max_idle] consecutive main-loop iterations, and
    queued tasks leave their queue as soon as the limit allows (C05). *)
-Theorem c03_ready_tasks_get_queued : forall c s snap s',
-  step c s (ETickEnd snap) = Ok s' ->
+Theorem c03_ready_tasks_get_queued : forall c s snap hl hp s',
+  step c s (ETickEnd snap hl hp) = Ok s' ->
   forall p, In p (pool s') -> (p_idle p < max_idle)%nat.
-Proof. intros c s snap s' H p Hp. exact (proj1 (tick_end_progress c s snap s' H p Hp)). Qed.
+Proof. intros c s snap hl hp s' H p Hp. exact (proj1 (tick_end_progress c s snap hl hp s' H p Hp)). Qed.
 
 (* A task is queued only when it is really ready. *)
 Theorem c03_queued_only_when_ready : forall c s t st h r s' p inp i,
